@@ -8,6 +8,8 @@ import Mathlib.Tactic.LinearCombination
   Ark.Proofs.CurveA — helper lemmas for property C03 (short Weierstrass part):
   the Jacobian formulas of `Ark.Curve.SW` compute the textbook affine chord-and-tangent law.
 -/
+set_option linter.unusedSectionVars false
+set_option linter.unusedSimpArgs false
 namespace Ark.Curve.SW
 
 variable {F : Type} [Field F] [DecidableEq F]
@@ -18,8 +20,7 @@ variable {F : Type} [Field F] [DecidableEq F]
 def mk (x y z : F) : Jac F := ⟨x * (z * z), y * (z * z * z), z⟩
 
 theorem toAff_mk (x y z : F) (hz : z ≠ 0) : toAff (mk x y z) = some (x, y) := by
-  simp only [toAff, mk]
-  rw [if_neg hz]
+  simp only [toAff, mk, hz, if_false]
   congr 2 <;> field_simp
 
 theorem toAff_of_z_eq_zero {p : Jac F} (h : p.z = 0) : toAff p = none := by
@@ -30,8 +31,8 @@ theorem toAff_eq_none_iff (p : Jac F) : toAff p = none ↔ p.z = 0 := by
   split <;> simp_all
 
 /-- every triple with `z ≠ 0` is of the form `mk x y z` -/
-theorem exists_mk (p : Jac F) (hz : p.z ≠ 0) : ∃ x y, p = mk x y p.z := by
-  refine ⟨p.x * (p.z * p.z)⁻¹, p.y * (p.z * p.z * p.z)⁻¹, ?_⟩
+theorem exists_mk (p : Jac F) (hz : p.z ≠ 0) : ∃ x y z, z ≠ 0 ∧ p = mk x y z := by
+  refine ⟨p.x * (p.z * p.z)⁻¹, p.y * (p.z * p.z * p.z)⁻¹, p.z, hz, ?_⟩
   cases p with
   | mk x y z =>
     simp only [mk, Jac.mk.injEq, and_true]
@@ -76,5 +77,411 @@ theorem add_mk_general (c : Curve F) (h2 : (2 : F) ≠ 0) (x1 y1 z1 x2 y2 z2 : F
     ring
   · field_simp
     ring
+
+
+/-! ### cross-multiplied comparisons -/
+
+theorem u_eq_iff (x1 x2 z1 z2 : F) (hz1 : z1 ≠ 0) (hz2 : z2 ≠ 0) :
+    x1 * (z1 * z1) * (z2 * z2) = x2 * (z2 * z2) * (z1 * z1) ↔ x1 = x2 := by
+  constructor
+  · intro h
+    have : (x1 - x2) * (z1 * z1 * (z2 * z2)) = 0 := by linear_combination h
+    rcases mul_eq_zero.1 this with h | h
+    · exact sub_eq_zero.1 h
+    · exact absurd h (mul_ne_zero (mul_ne_zero hz1 hz1) (mul_ne_zero hz2 hz2))
+  · rintro rfl; ring
+
+theorem s_eq_iff (y1 y2 z1 z2 : F) (hz1 : z1 ≠ 0) (hz2 : z2 ≠ 0) :
+    y1 * (z1 * z1 * z1) * z2 * (z2 * z2) = y2 * (z2 * z2 * z2) * z1 * (z1 * z1) ↔ y1 = y2 := by
+  constructor
+  · intro h
+    have : (y1 - y2) * (z1 * z1 * z1 * (z2 * z2 * z2)) = 0 := by linear_combination h
+    rcases mul_eq_zero.1 this with h | h
+    · exact sub_eq_zero.1 h
+    · exact absurd h (mul_ne_zero (mul_ne_zero (mul_ne_zero hz1 hz1) hz1)
+        (mul_ne_zero (mul_ne_zero hz2 hz2) hz2))
+  · rintro rfl; ring
+
+/-! ### identity branches -/
+
+theorem add_of_left_zero (c : Curve F) (p q : Jac F) (h : p.z = 0) : add c p q = q := by
+  simp [add, Jac.isZero, h]
+
+theorem add_of_right_zero (c : Curve F) (p q : Jac F) (hp : p.z ≠ 0) (h : q.z = 0) :
+    add c p q = p := by
+  simp [add, Jac.isZero, h, hp]
+
+theorem affAdd_none_left (a : F) (Q : Option (F × F)) : affAdd a none Q = Q := by
+  simp [affAdd]
+
+theorem affAdd_none_right (a : F) (P : Option (F × F)) : affAdd a P none = P := by
+  cases P <;> simp [affAdd]
+
+/-! ### double / opposite branches of `add` -/
+
+theorem add_mk_double (c : Curve F) (x1 y1 z1 x2 y2 z2 : F) (hz1 : z1 ≠ 0) (hz2 : z2 ≠ 0)
+    (hx : x1 = x2) (hy : y1 = y2) :
+    add c (mk x1 y1 z1) (mk x2 y2 z2) = double c (mk x1 y1 z1) := by
+  have hu := (u_eq_iff x1 x2 z1 z2 hz1 hz2).2 hx
+  have hs := (s_eq_iff y1 y2 z1 z2 hz1 hz2).2 hy
+  simp only [add, mk, Jac.isZero, hz1, hz2, decide_false, Bool.false_eq_true, if_false, sq, hu, hs,
+    if_true]
+
+theorem add_mk_opposite (c : Curve F) (x1 y1 z1 x2 y2 z2 : F) (hz1 : z1 ≠ 0) (hz2 : z2 ≠ 0)
+    (hx : x1 = x2) (hy : y1 ≠ y2) :
+    add c (mk x1 y1 z1) (mk x2 y2 z2) = Jac.zero := by
+  have hu := (u_eq_iff x1 x2 z1 z2 hz1 hz2).2 hx
+  have hs : ¬ (y1 * (z1 * z1 * z1) * z2 * (z2 * z2) = y2 * (z2 * z2 * z2) * z1 * (z1 * z1)) :=
+    fun h => hy ((s_eq_iff y1 y2 z1 z2 hz1 hz2).1 h)
+  simp only [add, mk, Jac.isZero, hz1, hz2, decide_false, Bool.false_eq_true, if_false, sq, hu, hs,
+    if_true]
+
+theorem toAff_zero : toAff (Jac.zero : Jac F) = none := by
+  simp [toAff, Jac.zero]
+
+/-! ### doubling -/
+
+theorem double_of_zero (c : Curve F) (p : Jac F) (h : p.z = 0) : double c p = p := by
+  simp [double, Jac.isZero, h]
+
+theorem double_z (c : Curve F) (p : Jac F) (hz : p.z ≠ 0) :
+    (double c p).z = 2 * (p.z * p.y) := by
+  unfold double
+  rw [isZero_eq_false hz]
+  by_cases ha : c.a = 0
+  · simp only [Bool.false_eq_true, if_false, ha, if_true, dbl]; ring
+  · simp only [Bool.false_eq_true, if_false, ha, dbl]; ring
+
+theorem toAff_double_mk (c : Curve F) (hA : ∀ e, c.mulByA e = c.a * e) (h2 : (2 : F) ≠ 0)
+    (x y z : F) (hz : z ≠ 0) (hy : y ≠ 0) :
+    toAff (double c (mk x y z)) = affAdd c.a (some (x, y)) (some (x, y)) := by
+  have hz3 : (double c (mk x y z)).z ≠ 0 := by
+    rw [double_z c _ hz]
+    exact mul_ne_zero h2 (mul_ne_zero hz (mul_ne_zero hy (mul_ne_zero (mul_ne_zero hz hz) hz)))
+  have hyy : 2 * y ≠ 0 := mul_ne_zero h2 hy
+  rw [toAff, if_neg hz3]
+  have hm : (mk x y z).isZero = false := isZero_eq_false hz
+  unfold double
+  rw [hm]
+  by_cases ha : c.a = 0
+  · cases hd : c.deg12
+    · simp only [mk, Bool.false_eq_true, if_false, ha, if_true, sq, dbl, affAdd, ← two_mul]
+      simp only [hyy, and_false, if_false, if_true]
+      congr 2
+      · field_simp
+        ring
+      · field_simp
+        ring
+    · simp only [mk, Bool.false_eq_true, if_false, ha, if_true, sq, dbl, affAdd, ← two_mul]
+      simp only [hyy, and_false, if_false, if_true]
+      congr 2
+      · field_simp
+        ring
+      · field_simp
+        ring
+  · simp only [mk, Bool.false_eq_true, if_false, ha, if_true, sq, dbl, affAdd, ← two_mul, hA]
+    simp only [hyy, and_false, if_false, if_true]
+    congr 2
+    · field_simp
+      ring
+    · field_simp
+      ring
+
+
+theorem affAdd_self_none (a x y : F) (h : 2 * y = 0) :
+    affAdd a (some (x, y)) (some (x, y)) = none := by
+  have : y + y = 0 := by rw [← two_mul]; exact h
+  simp [affAdd, this]
+
+/-- doubling of a finite point, all cases (`y = 0`, characteristic two included) -/
+theorem toAff_double_mk_all (c : Curve F) (hA : ∀ e, c.mulByA e = c.a * e)
+    (x y z : F) (hz : z ≠ 0) :
+    toAff (double c (mk x y z)) = affAdd c.a (some (x, y)) (some (x, y)) := by
+  by_cases h : (2 : F) * y = 0
+  · rw [affAdd_self_none _ _ _ h]
+    apply toAff_of_z_eq_zero
+    rw [double_z c _ hz]
+    show 2 * (z * (y * (z * z * z))) = 0
+    linear_combination (z * (z * z * z)) * h
+  · have h2 : (2 : F) ≠ 0 := fun e => h (by rw [e, zero_mul])
+    have hy : y ≠ 0 := fun e => h (by rw [e, mul_zero])
+    exact toAff_double_mk c hA h2 x y z hz hy
+
+/-- `double` computes `P + P`, for every triple -/
+theorem toAff_double (c : Curve F) (hA : ∀ e, c.mulByA e = c.a * e) (p : Jac F) :
+    toAff (double c p) = affAdd c.a (toAff p) (toAff p) := by
+  by_cases hz : p.z = 0
+  · rw [double_of_zero c p hz, toAff_of_z_eq_zero hz, affAdd_none_left]
+  · obtain ⟨x, y, z, hz', rfl⟩ := exists_mk p hz
+    rw [toAff_double_mk_all c hA x y z hz', toAff_mk x y z hz']
+
+/-! ### the curve equation and closure of the affine law -/
+
+theorem onCurve_some (a b x y : F) :
+    onCurve a b (some (x, y)) = true ↔ y * y = x * x * x + a * x + b := by
+  simp [onCurve]
+
+theorem onCurve_none (a b : F) : onCurve a b (none : Option (F × F)) = true := rfl
+
+theorem onCurve_affNeg (a b : F) (P : Option (F × F)) :
+    onCurve a b (affNeg P) = onCurve a b P := by
+  rcases P with _ | ⟨x, y⟩
+  · rfl
+  · simp only [affNeg, onCurve, neg_mul_neg]
+
+/-- two points of the curve with the same abscissa are equal or opposite -/
+theorem y_eq_or_neg {a b x y1 y2 : F} (h1 : y1 * y1 = x * x * x + a * x + b)
+    (h2 : y2 * y2 = x * x * x + a * x + b) : y1 = y2 ∨ y1 + y2 = 0 := by
+  have : (y1 - y2) * (y1 + y2) = 0 := by linear_combination h1 - h2
+  rcases mul_eq_zero.1 this with h | h
+  · exact Or.inl (sub_eq_zero.1 h)
+  · exact Or.inr h
+
+theorem onCurve_tangent {a b x y lam : F} (h1 : y * y = x * x * x + a * x + b)
+    (hl : lam * (y + y) = (1 + 1 + 1) * x * x + a) :
+    (lam * (x - (lam * lam - x - x)) - y) * (lam * (x - (lam * lam - x - x)) - y) =
+      (lam * lam - x - x) * (lam * lam - x - x) * (lam * lam - x - x) + a * (lam * lam - x - x) + b := by
+  linear_combination h1 + (lam * lam - x - x - x) * hl
+
+theorem onCurve_chord {a b x1 y1 x2 y2 lam : F} (h1 : y1 * y1 = x1 * x1 * x1 + a * x1 + b)
+    (h2 : y2 * y2 = x2 * x2 * x2 + a * x2 + b) (hx : x1 ≠ x2)
+    (hl : lam * (x2 - x1) = y2 - y1) :
+    (lam * (x1 - (lam * lam - x1 - x2)) - y1) * (lam * (x1 - (lam * lam - x1 - x2)) - y1) =
+      (lam * lam - x1 - x2) * (lam * lam - x1 - x2) * (lam * lam - x1 - x2) +
+        a * (lam * lam - x1 - x2) + b := by
+  have hd : x2 - x1 ≠ 0 := sub_ne_zero.2 (Ne.symm hx)
+  have h2' : (y1 + lam * (x2 - x1)) * (y1 + lam * (x2 - x1)) = x2 * x2 * x2 + a * x2 + b := by
+    rw [hl]; linear_combination h2
+  -- divide the difference of the two equations by `x2 - x1`
+  have hk : 2 * y1 * lam + lam * lam * (x2 - x1) = x2 * x2 + x1 * x2 + x1 * x1 + a := by
+    apply mul_left_cancel₀ hd
+    linear_combination h2' - h1
+  linear_combination h1 + (lam * lam - x1 - x2 - x1) * hk
+
+
+/-- closure: the sum of two points of the curve is on the curve -/
+theorem onCurve_affAdd (a b : F) (P Q : Option (F × F)) (hP : onCurve a b P = true)
+    (hQ : onCurve a b Q = true) : onCurve a b (affAdd a P Q) = true := by
+  rcases P with _ | ⟨x1, y1⟩
+  · rwa [affAdd_none_left]
+  rcases Q with _ | ⟨x2, y2⟩
+  · rwa [affAdd_none_right]
+  rw [onCurve_some] at hP hQ
+  by_cases hx : x1 = x2
+  · subst hx
+    by_cases hy : y1 + y2 = 0
+    · simp [affAdd, hy, onCurve]
+    · have hyy : y1 = y2 := (y_eq_or_neg hP hQ).resolve_right hy
+      subst hyy
+      simp only [affAdd, hy, and_false, if_false, if_true, onCurve_some]
+      apply onCurve_tangent hP
+      rw [mul_assoc, inv_mul_cancel₀ hy, mul_one]
+  · simp only [affAdd, hx, false_and, if_false, onCurve_some]
+    apply onCurve_chord hP hQ hx
+    rw [mul_assoc, inv_mul_cancel₀ (sub_ne_zero.2 (Ne.symm hx)), mul_one]
+
+/-! ### the opposite branch -/
+
+theorem affAdd_opposite (a x y1 y2 : F) (h : y1 + y2 = 0) :
+    affAdd a (some (x, y1)) (some (x, y2)) = none := by
+  simp [affAdd, h]
+
+/-! ### main theorem for `add` -/
+
+theorem toAff_add_mk (c : Curve F) (hA : ∀ e, c.mulByA e = c.a * e) (h2 : (2 : F) ≠ 0)
+    (x1 y1 z1 x2 y2 z2 : F) (hz1 : z1 ≠ 0) (hz2 : z2 ≠ 0)
+    (hP : onCurve c.a c.b (some (x1, y1)) = true) (hQ : onCurve c.a c.b (some (x2, y2)) = true) :
+    toAff (add c (mk x1 y1 z1) (mk x2 y2 z2)) = affAdd c.a (some (x1, y1)) (some (x2, y2)) := by
+  by_cases hx : x1 = x2
+  · by_cases hy : y1 = y2
+    · rw [add_mk_double c _ _ _ _ _ _ hz1 hz2 hx hy, toAff_double_mk_all c hA _ _ _ hz1]
+      subst hx; subst hy; rfl
+    · rw [add_mk_opposite c _ _ _ _ _ _ hz1 hz2 hx hy, toAff_zero]
+      subst hx
+      rw [onCurve_some] at hP hQ
+      rw [affAdd_opposite _ _ _ _ ((y_eq_or_neg hP hQ).resolve_left hy)]
+  · exact (add_mk_general c h2 x1 y1 z1 x2 y2 z2 hz1 hz2 hx).2
+
+/-- MAIN: `add` computes the affine law for all pairs of representatives of curve points -/
+theorem toAff_add (c : Curve F) (hA : ∀ e, c.mulByA e = c.a * e) (h2 : (2 : F) ≠ 0)
+    (p q : Jac F) (hP : onCurve c.a c.b (toAff p) = true) (hQ : onCurve c.a c.b (toAff q) = true) :
+    toAff (add c p q) = affAdd c.a (toAff p) (toAff q) := by
+  by_cases hz1 : p.z = 0
+  · rw [add_of_left_zero c p q hz1, toAff_of_z_eq_zero hz1, affAdd_none_left]
+  by_cases hz2 : q.z = 0
+  · rw [add_of_right_zero c p q hz1 hz2, toAff_of_z_eq_zero hz2, affAdd_none_right]
+  obtain ⟨x1, y1, z1, hz1', rfl⟩ := exists_mk p hz1
+  obtain ⟨x2, y2, z2, hz2', rfl⟩ := exists_mk q hz2
+  rw [toAff_mk _ _ _ hz1'] at hP ⊢
+  rw [toAff_mk _ _ _ hz2'] at hQ ⊢
+  exact toAff_add_mk c hA h2 x1 y1 z1 x2 y2 z2 hz1' hz2' hP hQ
+
+theorem onCurve_add (c : Curve F) (hA : ∀ e, c.mulByA e = c.a * e) (h2 : (2 : F) ≠ 0)
+    (p q : Jac F) (hP : onCurve c.a c.b (toAff p) = true) (hQ : onCurve c.a c.b (toAff q) = true) :
+    onCurve c.a c.b (toAff (add c p q)) = true := by
+  rw [toAff_add c hA h2 p q hP hQ]
+  exact onCurve_affAdd _ _ _ _ hP hQ
+
+/-! ### negation, subtraction -/
+
+theorem toAff_neg (p : Jac F) : toAff p.neg = affNeg (toAff p) := by
+  unfold toAff Jac.neg
+  by_cases hz : p.z = 0
+  · simp [hz, affNeg]
+  · simp [hz, affNeg]
+
+theorem ofAffine_neg (a : Affine F) : ofAffine a.neg = affNeg (ofAffine a) := by
+  unfold ofAffine Affine.neg
+  cases h : a.infinity <;> simp [affNeg]
+
+theorem toAff_sub (c : Curve F) (hA : ∀ e, c.mulByA e = c.a * e) (h2 : (2 : F) ≠ 0)
+    (p q : Jac F) (hP : onCurve c.a c.b (toAff p) = true) (hQ : onCurve c.a c.b (toAff q) = true) :
+    toAff (sub c p q) = affAdd c.a (toAff p) (affNeg (toAff q)) := by
+  have hQ' : onCurve c.a c.b (toAff q.neg) = true := by rw [toAff_neg, onCurve_affNeg]; exact hQ
+  rw [sub, toAff_add c hA h2 p q.neg hP hQ', toAff_neg]
+
+/-! ### mixed addition -/
+
+theorem toAff_fromAffine (a : Affine F) : toAff (fromAffine a) = ofAffine a := by
+  unfold fromAffine Affine.xy ofAffine
+  cases h : a.infinity
+  · simp [toAff]
+  · simp [toAff, Jac.zero]
+
+/-- for a finite affine operand `madd-2007-bl` and its branches coincide with `add` on `(x, y, 1)` -/
+theorem addMixed_eq_add (c : Curve F) (p : Jac F) (q : Affine F) (hq : q.infinity = false) :
+    addMixed c p q = add c p (fromAffine q) := by
+  have h1 : ((⟨q.x, q.y, 1⟩ : Jac F)).isZero = false := by simp [Jac.isZero]
+  simp only [addMixed, fromAffine, Affine.xy, hq, Bool.false_eq_true, if_false, add, h1]
+  by_cases hz : p.z = 0
+  · simp only [isZero_eq_true hz, if_true]
+  · simp only [isZero_eq_false hz, Bool.false_eq_true, if_false, sq, dbl, mul_one]
+    by_cases hu : p.x = q.x * (p.z * p.z)
+    · have hs : (p.y = p.z * q.y * (p.z * p.z)) ↔ (p.y = q.y * p.z * (p.z * p.z)) := by
+        rw [mul_comm p.z q.y]
+      simp only [hu, if_true, hs]
+    · simp only [hu, if_false, Jac.mk.injEq]
+      refine ⟨?_, ?_, ?_⟩ <;> ring
+
+theorem addMixed_of_infinity (c : Curve F) (p : Jac F) (q : Affine F) (hq : q.infinity = true) :
+    addMixed c p q = p := by
+  simp [addMixed, Affine.xy, hq]
+
+theorem toAff_addMixed (c : Curve F) (hA : ∀ e, c.mulByA e = c.a * e) (h2 : (2 : F) ≠ 0)
+    (p : Jac F) (q : Affine F) (hP : onCurve c.a c.b (toAff p) = true)
+    (hQ : onCurve c.a c.b (ofAffine q) = true) :
+    toAff (addMixed c p q) = affAdd c.a (toAff p) (ofAffine q) := by
+  cases hq : q.infinity
+  · rw [addMixed_eq_add c p q hq, toAff_add c hA h2 p _ hP (by rw [toAff_fromAffine]; exact hQ),
+      toAff_fromAffine]
+  · rw [addMixed_of_infinity c p q hq]
+    have : ofAffine q = none := by simp [ofAffine, hq]
+    rw [this, affAdd_none_right]
+
+
+theorem toAff_subMixed (c : Curve F) (hA : ∀ e, c.mulByA e = c.a * e) (h2 : (2 : F) ≠ 0)
+    (p : Jac F) (q : Affine F) (hP : onCurve c.a c.b (toAff p) = true)
+    (hQ : onCurve c.a c.b (ofAffine q) = true) :
+    toAff (subMixed c p q) = affAdd c.a (toAff p) (affNeg (ofAffine q)) := by
+  have hQ' : onCurve c.a c.b (ofAffine q.neg) = true := by
+    rw [ofAffine_neg, onCurve_affNeg]; exact hQ
+  rw [subMixed, toAff_addMixed c hA h2 p q.neg hP hQ', ofAffine_neg]
+
+/-! ### branch statements for arbitrary triples -/
+
+theorem add_general (c : Curve F) (h2 : (2 : F) ≠ 0) (p q : Jac F) (hp : p.z ≠ 0) (hq : q.z ≠ 0)
+    (hu : p.x * sq q.z ≠ q.x * sq p.z) :
+    (add c p q).z ≠ 0 ∧ toAff (add c p q) = affAdd c.a (toAff p) (toAff q) := by
+  obtain ⟨x1, y1, z1, hz1, rfl⟩ := exists_mk p hp
+  obtain ⟨x2, y2, z2, hz2, rfl⟩ := exists_mk q hq
+  have hx : x1 ≠ x2 := fun h => hu ((u_eq_iff x1 x2 z1 z2 hz1 hz2).2 h)
+  rw [toAff_mk _ _ _ hz1, toAff_mk _ _ _ hz2]
+  exact add_mk_general c h2 x1 y1 z1 x2 y2 z2 hz1 hz2 hx
+
+theorem add_double_branch (c : Curve F) (p q : Jac F) (hp : p.z ≠ 0) (hq : q.z ≠ 0)
+    (hu : p.x * sq q.z = q.x * sq p.z) (hs : p.y * q.z * sq q.z = q.y * p.z * sq p.z) :
+    add c p q = double c p ∧ toAff q = toAff p := by
+  obtain ⟨x1, y1, z1, hz1, rfl⟩ := exists_mk p hp
+  obtain ⟨x2, y2, z2, hz2, rfl⟩ := exists_mk q hq
+  have hx : x1 = x2 := (u_eq_iff x1 x2 z1 z2 hz1 hz2).1 hu
+  have hy : y1 = y2 := (s_eq_iff y1 y2 z1 z2 hz1 hz2).1 hs
+  refine ⟨add_mk_double c _ _ _ _ _ _ hz1 hz2 hx hy, ?_⟩
+  rw [toAff_mk _ _ _ hz1, toAff_mk _ _ _ hz2, hx, hy]
+
+theorem add_opposite_branch (c : Curve F) (p q : Jac F) (hp : p.z ≠ 0) (hq : q.z ≠ 0)
+    (hP : onCurve c.a c.b (toAff p) = true) (hQ : onCurve c.a c.b (toAff q) = true)
+    (hu : p.x * sq q.z = q.x * sq p.z) (hs : p.y * q.z * sq q.z ≠ q.y * p.z * sq p.z) :
+    add c p q = Jac.zero ∧ toAff q = affNeg (toAff p) ∧
+      affAdd c.a (toAff p) (toAff q) = none := by
+  obtain ⟨x1, y1, z1, hz1, rfl⟩ := exists_mk p hp
+  obtain ⟨x2, y2, z2, hz2, rfl⟩ := exists_mk q hq
+  have hx : x1 = x2 := (u_eq_iff x1 x2 z1 z2 hz1 hz2).1 hu
+  have hy : y1 ≠ y2 := fun h => hs ((s_eq_iff y1 y2 z1 z2 hz1 hz2).2 h)
+  rw [toAff_mk _ _ _ hz1] at hP ⊢
+  rw [toAff_mk _ _ _ hz2] at hQ ⊢
+  subst hx
+  rw [onCurve_some] at hP hQ
+  have hn : y1 + y2 = 0 := (y_eq_or_neg hP hQ).resolve_left hy
+  refine ⟨add_mk_opposite c _ _ _ _ _ _ hz1 hz2 rfl hy, ?_, affAdd_opposite _ _ _ _ hn⟩
+  have : y2 = - y1 := by linear_combination hn
+  rw [this]; rfl
+
+theorem double_finite (c : Curve F) (hA : ∀ e, c.mulByA e = c.a * e) (h2 : (2 : F) ≠ 0)
+    (p : Jac F) (hz : p.z ≠ 0) (hy : p.y ≠ 0) :
+    (double c p).z ≠ 0 ∧ toAff (double c p) = affAdd c.a (toAff p) (toAff p) := by
+  refine ⟨?_, toAff_double c hA p⟩
+  rw [double_z c p hz]
+  exact mul_ne_zero h2 (mul_ne_zero hz hy)
+
+theorem double_order_two (c : Curve F) (hA : ∀ e, c.mulByA e = c.a * e) (p : Jac F)
+    (hz : p.z ≠ 0) (hy : p.y = 0) :
+    (double c p).z = 0 ∧ affAdd c.a (toAff p) (toAff p) = none := by
+  have h : (double c p).z = 0 := by rw [double_z c p hz, hy]; ring
+  exact ⟨h, by rw [← toAff_double c hA p]; exact toAff_of_z_eq_zero h⟩
+
+/-! ### equality and zero tests -/
+
+theorem isZero_iff (p : Jac F) : p.isZero = true ↔ toAff p = none := by
+  rw [toAff_eq_none_iff]; simp [Jac.isZero]
+
+theorem eq_iff (p q : Jac F) : p.eq q = true ↔ toAff p = toAff q := by
+  by_cases hp : p.z = 0
+  · rw [toAff_of_z_eq_zero hp, eq_comm, ← isZero_iff]
+    simp [Jac.eq, isZero_eq_true hp]
+  by_cases hq : q.z = 0
+  · rw [toAff_of_z_eq_zero hq, ← isZero_iff]
+    simp [Jac.eq, isZero_eq_false hp, isZero_eq_true hq]
+  obtain ⟨x1, y1, z1, hz1, rfl⟩ := exists_mk p hp
+  obtain ⟨x2, y2, z2, hz2, rfl⟩ := exists_mk q hq
+  rw [toAff_mk _ _ _ hz1, toAff_mk _ _ _ hz2]
+  simp only [Jac.eq, isZero_eq_false hp, isZero_eq_false hq, Bool.false_eq_true, if_false, mk, sq,
+    Option.some.injEq, Prod.mk.injEq]
+  have e1 := u_eq_iff x1 x2 z1 z2 hz1 hz2
+  have e2 : y1 * (z1 * z1 * z1) * (z2 * z2 * z2) = y2 * (z2 * z2 * z2) * (z1 * z1 * z1) ↔ y1 = y2 := by
+    rw [← s_eq_iff y1 y2 z1 z2 hz1 hz2]
+    constructor <;> intro h <;> linear_combination h
+  by_cases hx : x1 = x2
+  · simp only [e1.2 hx, if_true, decide_eq_true_eq, e2, hx, true_and]
+  · have : ¬ (x1 * (z1 * z1) * (z2 * z2) = x2 * (z2 * z2) * (z1 * z1)) := fun h => hx (e1.1 h)
+    simp [this, hx]
+
+theorem affineEqProj_iff (a : Affine F) (q : Jac F) :
+    affineEqProj a q = true ↔ ofAffine a = toAff q := by
+  rw [affineEqProj, eq_iff, toAff_fromAffine]
+
+/-! ### normalisation -/
+
+theorem toAffine_ok (p : Jac F) : ∃ r, toAffine p = .ok r ∧ ofAffine r = toAff p := by
+  unfold toAffine
+  by_cases hz : p.z = 0
+  · exact ⟨Affine.identity, by simp [isZero_eq_true hz], by
+      rw [toAff_of_z_eq_zero hz]; simp [ofAffine, Affine.identity]⟩
+  rw [isZero_eq_false hz]
+  by_cases h1 : p.z = 1
+  · refine ⟨⟨p.x, p.y, false⟩, by simp [h1], ?_⟩
+    simp [ofAffine, toAff, h1]
+  · refine ⟨⟨p.x * sq p.z⁻¹, p.y * (sq p.z⁻¹ * p.z⁻¹), false⟩, by simp [h1, inverse?, hz], ?_⟩
+    simp only [ofAffine, toAff, hz, Bool.false_eq_true, if_false, sq]
+    congr 2 <;> field_simp
 
 end Ark.Curve.SW
